@@ -9,11 +9,7 @@ that nothing below the start pointer changes, and bounds the write extent.
 namespace Sonic.Proofs.Ftoa
 open Sonic.Model.Itoa Sonic.Model.Ftoa Sonic.Spec Sonic.Proofs.Itoa
 
-/-- mantissa of the exponent format: `d` or `d.ddd` -/
-def mant (D : List Nat) : List Nat :=
-  match D with
-  | [] => []
-  | d :: rest => d :: (if rest.isEmpty then [] else 46 :: rest)
+open Sonic.Spec.Shortest (mant)
 
 theorem fxMant_spec (st : St) (out : Nat) (D : List Nat) (hD : D ≠ [])
     (hs : slice st.buf (out + 1) (out + 1 + D.length) = D) :
@@ -403,7 +399,6 @@ theorem refBody_exp (m : Nat) (e : Int) (cnt : Nat) (exp : Int) (t : Nat)
   have hsci : ((decimal m).length : Int) + e - 1 = exp + (cnt : Int) - 1 := by omega
   simp only [refBody, hsci]
   rw [if_pos hx]
-  rfl
 
 open Sonic.Spec.Shortest in
 theorem refBody_dec (m : Nat) (e : Int) (cnt : Nat) (exp : Int) (t : Nat)
